@@ -25,6 +25,9 @@ EVIDENCE = os.path.join(_OUT, "evidence")
 KNOWN = os.environ.get("VERIF_KNOWN", os.path.join(VERIF, "known_findings.json"))  # override: tools/test_known.py only
 CORPUS = os.path.join(VERIF, "corpus")
 NSHARDS = int(os.environ.get("VERIF_SHARDS", "16"))
+# per-case watchdog (seconds): the slowest legitimate cases (> 2^24 keys under ASan, 5000-operation histories with full
+# observation) take well under a minute on an idle machine; expiry is inconclusive until the case, re-run alone, expires again
+CASE_TIMEOUT = dict(quick=int(os.environ.get("VERIF_CASE_TIMEOUT", "300")), thorough=int(os.environ.get("VERIF_CASE_TIMEOUT", "900")))
 
 
 def log(*a):
@@ -45,7 +48,8 @@ class Task:
 
 
 def base_args(run, prop, tier, seed):
-    a = ["--prop", prop, "--tier", tier, "--seed", str(seed), "--cases", str(run.get("cases", 10))]
+    a = ["--prop", prop, "--tier", tier, "--seed", str(seed), "--cases", str(run.get("cases", 10)),
+         "--case-timeout", str(CASE_TIMEOUT[tier])]
     if run.get("configs"):
         a += ["--configs", run["configs"]]
     if run.get("exclude"):
@@ -85,15 +89,18 @@ def parse_out(path, task):
 def rerun_single(task, prop, tier, seed, open_case, env, timeout):
     """Re-runs one case alone. Returns True if it does not finish within the timeout either (a hang)."""
     cfgs = [x for x in task.run.get("_configs", []) if x]
-    if open_case[0] >= len(cfgs):
+    if open_case[0] >= len(cfgs) and not task.corpus_spec:
         return True
     out = os.path.join(RUNDIR, f"{task.label}.single.jsonl")
     if os.path.exists(out):
         os.unlink(out)
-    args = base_args(task.run, prop, tier, seed) + ["--config", cfgs[open_case[0]], "--case", str(open_case[1]), "--out", out]
+    args = [] if task.corpus_spec else base_args(task.run, prop, tier, seed) + ["--config", cfgs[open_case[0]], "--case", str(open_case[1]), "--out", out]
+    if task.corpus_spec:
+        args = ["--prop", prop, "--tier", tier, "--seed", str(seed), "--spec", task.corpus_spec, "--samples", "0",
+                "--case-timeout", str(CASE_TIMEOUT[tier]), "--out", out]
     try:
-        subprocess.run([task.exe] + args, env=env, cwd=RUNDIR, stdout=subprocess.DEVNULL, stderr=subprocess.DEVNULL, timeout=timeout)
-        return False
+        p = subprocess.run([task.exe] + args, env=env, cwd=RUNDIR, stdout=subprocess.DEVNULL, stderr=subprocess.DEVNULL, timeout=timeout)
+        return p.returncode == 124
     except subprocess.TimeoutExpired:
         return True
 
@@ -117,7 +124,8 @@ def run_task(task, prop, tier, seed, timeout):
             if os.path.exists(p):
                 os.unlink(p)
         if task.corpus_spec:
-            args = ["--prop", prop, "--tier", tier, "--seed", str(seed), "--spec", task.corpus_spec, "--samples", "0"]
+            args = ["--prop", prop, "--tier", tier, "--seed", str(seed), "--spec", task.corpus_spec, "--samples", "0",
+                    "--case-timeout", str(CASE_TIMEOUT[tier])]
             for k, v in task.run.get("x", {}).items():
                 args += [f"--x-{k}", str(v)]
         else:
@@ -129,7 +137,7 @@ def run_task(task, prop, tier, seed, timeout):
             try:
                 p = subprocess.run([task.exe] + args, stdout=ef, stderr=subprocess.STDOUT, env=env, timeout=timeout,
                                    cwd=RUNDIR)
-                rc, timed_out = p.returncode, False
+                rc, timed_out = p.returncode, p.returncode == 124
             except subprocess.TimeoutExpired:
                 rc, timed_out = -9, True
         open_case = parse_out(out, task)
@@ -150,7 +158,7 @@ def run_task(task, prop, tier, seed, timeout):
             # a case that makes no progress: re-run that case alone once (a single case normally takes seconds) before
             # calling it a hang; a wall-clock expiry alone is never a verdict
             log(f"[run] {task.label}: watchdog expired in case {open_case}; re-running that case alone")
-            if task.corpus_spec or rerun_single(task, prop, tier, seed, open_case, env, max(120, timeout // 4)):
+            if rerun_single(task, prop, tier, seed, open_case, env, CASE_TIMEOUT[tier] + 30):
                 task.crashes.append(dict(kind="hang", cfg=open_case[0], case=open_case[1], rc=rc, stderr=tail))
             else:
                 task.inconclusive.append(f"{task.label}: watchdog expired in case {open_case} but the case finished when re-run alone (machine overloaded?)")
